@@ -5,7 +5,7 @@ from z3 import And, Or, Not, Implies, If
 from pyvc.contract import Contract
 from pyvc import types as T
 from pyvc.ops import truth, PYROUND
-from pyvc.values import lit, ListObj, RecObj
+from pyvc.values import lit, ListObj, RecObj, StrSort
 from contracts.rtfview import param_int, ctl_params, all_params_integral, literal_text
 
 
@@ -122,3 +122,51 @@ class PageSettings(Contract):
 
 
 UNITS = [ShouldShow(), ShouldShowElement(), PageBreak(), PageSettings()]
+
+
+class EncodePageSettings(Contract):
+    """RTFEncodingService.encode_page_settings(page) = generate_page_settings(page.width, page.height, page.margin, page.orientation): the
+    page's own four values, each in its own position (C06 page geometry at the document start)."""
+    target = "services/encoding_service.py::RTFEncodingService.encode_page_settings"
+    serves = ["C06", "C01"]
+
+    def setup(self, c):
+        from pyvc.values import RecObj
+        syn = c.alloc(RecObj("RTFSyntaxGenerator", {}, fresh=False))
+        c.bind("self", c.alloc(RecObj("RTFEncodingService", {"syntax": syn}, pyclass=c.cls("rtflite.services.encoding_service", "RTFEncodingService"), fresh=False)))
+        page = _page_rec(c)
+        c.bind("page_config", page)
+        c.v.update(pagef=dict(c.obj(page).fields))
+        c.ghost("args", None)
+        self._v = c.v
+
+    @property
+    def handlers(self):
+        def gen(I, st, args, kwargs, node):
+            st.ghost["args"] = (list(args), dict(kwargs))
+            return z3.Const("generated_page_settings", StrSort)
+        return {"self.syntax.generate_page_settings": gen}
+
+    def ensures(self, c, out):
+        from pyvc.values import Ref, Opt, to_z3, norm_str
+        got = out.state.ghost.get("args")
+        f = c.v["pagef"]
+        if not got:
+            return {"C06.page_settings_generated_from_this_pages_geometry": z3.BoolVal(False)}
+        args, kwargs = got
+        names = ["width", "height", "margins", "orientation"]
+        vals = dict(zip(names, args))
+        vals.update(kwargs)
+
+        def same(a, b):
+            a = a.payload if isinstance(a, Opt) else a
+            b = b.payload if isinstance(b, Opt) else b
+            if isinstance(a, Ref) or isinstance(b, Ref):
+                return z3.BoolVal(isinstance(a, Ref) and isinstance(b, Ref) and a.oid == b.oid)
+            return to_z3(norm_str(a)) == to_z3(norm_str(b))
+        ok = [same(vals.get("width"), f["width"]), same(vals.get("height"), f["height"]), same(vals.get("margins"), f["margin"]), same(vals.get("orientation"), f["orientation"])]
+        return {"C06.page_settings_generated_from_this_pages_width_height_margins_orientation_in_that_order": And(*ok) if len(vals) == 4 else z3.BoolVal(False),
+                "returns_the_generated_block": to_z3(norm_str(out.value)) == z3.Const("generated_page_settings", StrSort)}
+
+
+UNITS.append(EncodePageSettings())
